@@ -227,6 +227,9 @@ func (i c30Inspector) HasAttributes(_ context.Context, ia addr.IA, _ trust.Attri
 type c30Resolver struct {
 	segs []*seg.Meta
 	reqs segfetcher.Requests
+	// onResolve models a fetch that takes time (path DB under load, remote path server): it may let virtual time
+	// pass and let the environment act (a revocation arrives) before the segments are delivered.
+	onResolve func()
 }
 
 func c30Match(pattern, ia addr.IA) bool {
@@ -236,6 +239,9 @@ func c30Match(pattern, ia addr.IA) bool {
 func (r *c30Resolver) Resolve(_ context.Context, reqs segfetcher.Requests, _ bool) (segfetcher.Segments,
 	segfetcher.Requests, error) {
 	r.reqs = append(r.reqs, reqs...)
+	if r.onResolve != nil {
+		r.onResolve()
+	}
 	var out segfetcher.Segments
 	for _, q := range reqs {
 		first, last := q.Src, q.Dst
@@ -405,8 +411,29 @@ func (s *c30Stats) viol(key, rank string, detail func() map[string]any) {
 	}
 }
 
+// c30Slow describes one slow lookup: the segment fetch for dst takes pre+post; in between a revocation for
+// revKeys[midRev] may arrive (midRev < 0: none).
+type c30Slow struct {
+	dst       addr.IA
+	pre, post time.Duration
+	midRev    int
+}
+
+func (s *c30Slow) name(w *c30World) string {
+	if s == nil {
+		return "instant"
+	}
+	n := fmt.Sprintf("fetch takes %v", s.pre+s.post)
+	if s.midRev >= 0 {
+		n += fmt.Sprintf(", revocation[%s,10s] arrives %v into the fetch", w.revNames[s.midRev], s.pre)
+	}
+	return n
+}
+
 // c30RunHistory runs one history inside the current bubble (times are relative to the bubble's current instant).
-func c30RunHistory(w *c30World, classes []int, hist []c30Ev, st *c30Stats, local map[string]int64) {
+// slow == nil: all destinations are looked up with an instantaneous fetch; otherwise the one slow lookup is made.
+// Returned paths are judged at the instant GetPaths returns.
+func c30RunHistory(w *c30World, classes []int, hist []c30Ev, st *c30Stats, local map[string]int64, slow *c30Slow) {
 	ctx := context.Background()
 	t0 := time.Now()
 	res := &c30Resolver{}
@@ -431,22 +458,24 @@ func c30RunHistory(w *c30World, classes []int, hist []c30Ev, st *c30Stats, local
 	type mrev struct{ ts, exp time.Time }
 	model := map[revcache.Key]mrev{}
 	n := len(w.revKeys)
+	insertRev := func(k revcache.Key) {
+		now := time.Now()
+		ri := &path_mgmt.RevInfo{IfID: k.IfID, RawIsdas: k.IA, LinkType: proto.LinkType_core,
+			RawTimestamp: uint32(now.Unix()), RawTTL: 10}
+		if _, err := rc.Insert(ctx, ri); err != nil {
+			st.mu.Lock()
+			st.harness = append(st.harness, "revcache insert: "+err.Error())
+			st.mu.Unlock()
+		}
+		// a revocation replaces a stored one only if it was issued later (or the stored one has lapsed)
+		if old, ok := model[k]; !ok || !old.exp.After(now) || now.After(old.ts) {
+			model[k] = mrev{now, now.Add(10 * time.Second)}
+		}
+	}
 	for _, e := range hist {
 		switch {
 		case int(e) < n:
-			k := w.revKeys[e]
-			now := time.Now()
-			ri := &path_mgmt.RevInfo{IfID: k.IfID, RawIsdas: k.IA, LinkType: proto.LinkType_core,
-				RawTimestamp: uint32(now.Unix()), RawTTL: 10}
-			if _, err := rc.Insert(ctx, ri); err != nil {
-				st.mu.Lock()
-				st.harness = append(st.harness, "revcache insert: "+err.Error())
-				st.mu.Unlock()
-			}
-			// a revocation replaces a stored one only if it was issued later (or the stored one has lapsed)
-			if old, ok := model[k]; !ok || !old.exp.After(now) || now.After(old.ts) {
-				model[k] = mrev{now, now.Add(10 * time.Second)}
-			}
+			insertRev(w.revKeys[e])
 		case int(e) == n:
 			time.Sleep(4 * time.Second)
 		case int(e) == n+1:
@@ -455,7 +484,7 @@ func c30RunHistory(w *c30World, classes []int, hist []c30Ev, st *c30Stats, local
 			rc.DeleteExpired(ctx)
 		}
 	}
-	now := time.Now()
+	now := time.Now() // re-read when each lookup returns
 	revoked := func(ia addr.IA, id uint16) bool {
 		m, ok := model[revcache.NewKey(ia, iface.ID(id))]
 		return ok && m.exp.After(now)
@@ -486,23 +515,50 @@ func c30RunHistory(w *c30World, classes []int, hist []c30Ev, st *c30Stats, local
 		}
 	}
 
-	for _, dst := range w.dsts {
+	dsts := w.dsts
+	slowRank, slowTag := 0, ""
+	if slow != nil {
+		dsts = []addr.IA{slow.dst}
+		slowRank, slowTag = 1, ":slow-fetch"
+		res.onResolve = func() {
+			time.Sleep(slow.pre)
+			if slow.midRev >= 0 {
+				insertRev(w.revKeys[slow.midRev])
+				slowTag = ":slow-fetch:revocation-arrives-during-fetch"
+			}
+			time.Sleep(slow.post)
+		}
+	}
+	for _, dst := range dsts {
 		st.lookups.Add(1)
 		res.reqs = nil
 		var paths []snet.Path
 		var err error
+		lookupStart := time.Now()
 		detail := func() map[string]any {
 			return map[string]any{"world": w.name, "segments": clsName(), "history": histName(), "dst": dst.String(),
-				"elapsed_s": now.Sub(t0).Seconds(), "returned_paths": len(paths), "error": fmt.Sprint(err)}
+				"lookup_started_s": lookupStart.Sub(t0).Seconds(), "lookup_returned_s": now.Sub(t0).Seconds(),
+				"fetch": slow.name(w), "returned_paths": len(paths), "error": fmt.Sprint(err)}
 		}
 		viol := func(key string, d func() map[string]any) {
-			st.viol(key, fmt.Sprintf("%02d/%02d/%s/%s/%s", len(hist), nonLive, w.name, dst, histName()+clsName()), d)
+			st.viol(key, fmt.Sprintf("%d/%02d/%02d/%s/%s/%s", slowRank, len(hist), nonLive, w.name, dst,
+				histName()+clsName()+slow.name(w)), d)
 		}
-		if pn := mc.Safely(func() { paths, err = p.GetPaths(ctx, dst, false) }); pn != nil {
+		pn := mc.Safely(func() { paths, err = p.GetPaths(ctx, dst, false) })
+		now = time.Now() // the instant the application gets the paths
+		if pn != nil {
 			viol("lookup-panic", func() map[string]any { d := detail(); d["panic"] = trunc(fmt.Sprint(pn), 600); return d })
 			continue
 		}
 		st.paths.Add(int64(len(paths)))
+		if slow != nil {
+			for _, c := range classes {
+				if c == c30Dying && lookupStart.Before(t0.Add(10500*time.Millisecond)) && now.After(t0.Add(10500*time.Millisecond)) {
+					slowTag += ":segment-expires-during-fetch"
+					break
+				}
+			}
+		}
 
 		// --- lookup for the local AS: exactly one empty path
 		if dst == w.local {
@@ -568,7 +624,7 @@ func c30RunHistory(w *c30World, classes []int, hist []c30Ev, st *c30Stats, local
 
 		// --- every returned path
 		if len(paths) == 0 {
-			local["no-paths"]++
+			local["no-paths"+slowTag]++
 			continue
 		}
 		st.nontriv.Add(1)
@@ -650,7 +706,7 @@ func c30RunHistory(w *c30World, classes []int, hist []c30Ev, st *c30Stats, local
 			if nonLive > 0 {
 				cl += ":some-segments-not-live"
 			}
-			local[cl]++
+			local[cl+slowTag]++
 		}
 	}
 }
@@ -659,18 +715,28 @@ func TestC30(t *testing.T) {
 	r := mc.NewRun(t, "C30", mc.Exploration)
 	st := &c30Stats{outcomes: map[string]int64{}, found: map[string]*c30Found{}}
 
-	type plan struct{ devBound, depth int }
-	plans := mc.Pick([]plan{{2, 1}, {1, 3}}, []plan{{1, 4}, {3, 1}, {2, 3}})
+	// slow: instead of the 13 instantaneous lookups, every (destination with an AS part or wildcard) x (slow-fetch
+	// variant) is looked up in its own replay of the history
+	type plan struct {
+		devBound, depth int
+		slow            bool
+	}
+	plans := mc.Pick(
+		[]plan{{2, 1, false}, {1, 3, false}, {1, 1, true}, {0, 2, true}},
+		[]plan{{1, 4, false}, {3, 1, false}, {2, 3, false}, {1, 2, true}, {2, 1, true}, {0, 3, true}})
 	worlds := []*c30World{c30NewWorld(false, false), c30NewWorld(false, true), c30NewWorld(true, false), c30NewWorld(true, true)}
 	r.Rule = "4 worlds (local AS core / non-core x ISD 1 with one / two core ASes) x life-time assignments of ALL segments " +
 		"(each of the 6 or 12 segments is live / dead / dying 10.5 s into the history / only-last-hop-dead; all assignments with " +
 		"at most b non-live segments) x ALL histories of at most d events over {revoke one of 4 on-path or 1 off-path interface " +
 		"for 10 s, advance 4 s, advance 15 s, DeleteExpired} for the (b,d) pairs of the tier, then one lookup for each of 13 " +
-		"destinations (local, leaves and cores of both ISDs, unknown AS, both ISD wildcards, ISD 0); a case = one lookup after " +
-		"one history; non-trivial = at least one path returned"
+		"destinations (local, leaves and cores of both ISDs, unknown AS, both ISD wildcards, ISD 0) with an instantaneous " +
+		"segment fetch; for the slow (b,d) pairs instead every history x every non-local destination x 6 slow-fetch variants " +
+		"(the resolver lets 7 s or 15 s of virtual time pass; in the 15 s fetch a 10 s revocation of one of the 4 on-path " +
+		"interfaces may arrive after 7 s), each in its own replay; paths are judged at the instant GetPaths returns; " +
+		"a case = one lookup after one history; non-trivial = at least one path returned"
 
 	var capped atomic.Bool
-	var histories, assignments atomic.Int64
+	var histories, assignments, slowLookups atomic.Int64
 	planInfo := []map[string]any{}
 	for _, pl := range plans {
 		for _, w := range worlds {
@@ -709,19 +775,42 @@ func TestC30(t *testing.T) {
 				}
 				local := map[string]int64{}
 				// one bubble per assignment; the histories run one after the other, each relative to its own start
+				var runs int64
 				synctest.Test(t, func(t *testing.T) {
 					for _, h := range hists {
-						c30RunHistory(w, assigns[ai], h, st, local)
+						if !pl.slow {
+							c30RunHistory(w, assigns[ai], h, st, local, nil)
+							runs++
+							continue
+						}
+						for _, dst := range w.dsts {
+							if dst == w.local || dst.ISD() == 0 {
+								continue
+							}
+							// the fetch ends 7 s or 15 s after the lookup started (segments die 10.5 s into a history);
+							// in the long fetch a 10 s revocation of an on-path interface may arrive after 7 s
+							variants := []c30Slow{{dst, 7 * time.Second, 0, -1}, {dst, 15 * time.Second, 0, -1}}
+							for k := 0; k < len(w.revKeys)-1; k++ {
+								variants = append(variants, c30Slow{dst, 7 * time.Second, 8 * time.Second, k})
+							}
+							for i := range variants {
+								c30RunHistory(w, assigns[ai], h, st, local, &variants[i])
+								runs++
+							}
+						}
 					}
 				})
-				histories.Add(int64(len(hists)))
+				histories.Add(runs)
+				if pl.slow {
+					slowLookups.Add(runs)
+				}
 				st.mu.Lock()
 				for k, v := range local {
 					st.outcomes[k] += v
 				}
 				st.mu.Unlock()
 			})
-			planInfo = append(planInfo, map[string]any{"world": w.name, "max_non_live_segments": pl.devBound,
+			planInfo = append(planInfo, map[string]any{"world": w.name, "slow_fetch_lookups": pl.slow, "max_non_live_segments": pl.devBound,
 				"history_depth": pl.depth, "assignments": len(assigns), "histories_per_assignment": len(hists)})
 		}
 	}
@@ -732,7 +821,7 @@ func TestC30(t *testing.T) {
 	for _, w := range worlds {
 		local := map[string]int64{}
 		probe := &c30Stats{outcomes: map[string]int64{}, found: map[string]*c30Found{}}
-		synctest.Test(t, func(t *testing.T) { c30RunHistory(w, make([]int, len(w.segs)), nil, probe, local) })
+		synctest.Test(t, func(t *testing.T) { c30RunHistory(w, make([]int, len(w.segs)), nil, probe, local, nil) })
 		if local["no-paths"] > 3 { // unknown AS; C2 in the single-core worlds; own-ISD wildcard of a lone core
 			r.HarnessError("world %s: %d destinations unreachable with all segments live: %v", w.name, local["no-paths"], local)
 		}
@@ -759,6 +848,7 @@ func TestC30(t *testing.T) {
 	r.Extra["plans"] = planInfo
 	r.Extra["lifetime_assignments"] = assignments.Load()
 	r.Extra["histories"] = histories.Load()
+	r.Extra["slow_fetch_lookups"] = slowLookups.Load()
 	r.Extra["lookups"] = st.lookups.Load()
 	r.Extra["paths_returned_and_checked"] = st.paths.Load()
 	r.Sample(map[string]any{"world": worlds[0].name, "segments": "D1>E=dying@+10.5s", "history": "revoke[C1-side of C1-D1,10s] ; advance15s",
@@ -767,7 +857,8 @@ func TestC30(t *testing.T) {
 	r.Assumptions = []string{
 		"the Resolver is a harness object that answers like the path DB (first/last AS match, AS 0 = any AS of the ISD) and never defers to a remote server; Pather, MultiSegmentSplitter, combinator and memrevcache are real",
 		"the traversed interfaces and the expiry of a returned path are read from its raw data-plane path (globally unique interface numbers), not from its metadata; 'expired' = earliest hop-field expiry <= now, 'active revocation' = issued no more than 10 s ago and not superseded",
-		"no event falls on an expiry instant (revocations last 10 s, segments die 10.5 s into a history, the clock moves in steps of 4 s and 15 s)",
+		"no event falls on an expiry instant (revocations last 10 s, segments die 10.5 s into a history, the clock moves in steps of 4 s, 7 s, 8 s and 15 s)",
+		"'has not expired / no active revocation' is judged at the instant GetPaths returns to the caller, also when the segment fetch took (virtual) time and a segment expired or a revocation arrived meanwhile",
 		"the topology has no peering links and no shortcuts (all leaf segments have one link)",
 		"segment requests are compared as a set with the table derived from doc/dev/design/PathService.md; for ISD-0 destinations only 'no paths' is demanded",
 		"soundness only: the check does not demand that every live route is returned (except the harness sanity probe with everything live)",
